@@ -63,6 +63,14 @@ def w_exh(pid, tier, seed, job):
                 lines = CG.decorate(random.Random(1), sheet, case, pad, inner)
                 lines.insert(p, b)
                 items.append((lines, exp, "blank_line"))
+            if p in allowed and (case, pad, inner) == (None, False, False):
+                # two decorations in a row: a blank line next to an unrecognised line (either order)
+                for b in CG.BLANKS[:2]:
+                    for j in CG.UNRECOGNISED[:3]:
+                        for pair in ((b, j), (j, b)):
+                            lines = CG.decorate(random.Random(1), sheet, case, pad, inner)
+                            lines[p:p] = list(pair)
+                            items.append((lines, exp, "blank_and_unrecognised_line"))
             if p in allowed and (case, pad, inner) in ((None, False, False), ("mixed", True, True)):
                 for j in CG.UNRECOGNISED:
                     lines = CG.decorate(random.Random(1), sheet, case, pad, inner)
